@@ -42,7 +42,9 @@ pub fn expect_payload(payload: &[u8], p: Props, dict: u64, size: Option<u64>, me
             return Expect {
                 v: Exp::Err,
                 out: vec![],
-                class: "preamble-short".into(),
+                // with a size n > 0 in effect this is "input that runs out first" (C08's own words); without one no
+                // listed property says what an input without a complete preamble is
+                class: if matches!(size, Some(n) if n > 0) { "truncated".into() } else { "preamble-short".into() },
                 consumed: None,
                 need: 0,
                 nsyms: 0,
